@@ -21,6 +21,7 @@ import (
 	"strconv"
 	"strings"
 	"sync"
+	"sync/atomic"
 	"time"
 
 	"github.com/folbricht/desync"
@@ -50,8 +51,8 @@ type gSched struct {
 	threads []*gThread
 	byGid   map[string]*gThread
 	wake    chan struct{}
-	free    bool // let everything run (after a failure)
-	Steps   int
+	free    bool  // let everything run (after a failure)
+	Steps   int64 // atomic
 	Trace   []string
 }
 
@@ -199,12 +200,12 @@ func (s *gSched) run(rng *vh.Rand, maxSteps int) string {
 			}
 			return fmt.Sprintf("deadlock: %d goroutines blocked on a lock, none can run\n%s", blocked, d)
 		}
-		if s.Steps >= maxSteps {
+		if atomic.LoadInt64(&s.Steps) >= int64(maxSteps) {
 			s.release()
 			return "schedule too long"
 		}
 		t := parked[rng.Intn(len(parked))]
-		s.Steps++
+		atomic.AddInt64(&s.Steps, 1)
 		if len(s.Trace) < 400 {
 			s.Trace = append(s.Trace, fmt.Sprintf("%d@%s", t.id, t.site))
 		}
@@ -270,6 +271,7 @@ type c11Req struct {
 	Closed []bool // was the member closed at the call
 	Result string
 	Last   string // answer class of the last member call as the member gave it
+	Start  int    // scheduler step in which the request began (its first current() runs in that same stretch)
 }
 
 // c11RunConc executes a concurrent case and returns the predicate failures.
@@ -357,7 +359,7 @@ func c11RunConc(c *c11ConcCase) (fails []c11PolicyFail, reqs []*c11Req, err erro
 					}
 					continue
 				}
-				r := &c11Req{Thread: ti, Op: op}
+				r := &c11Req{Thread: ti, Op: op, Start: int(atomic.LoadInt64(&sched.Steps))}
 				mu.Lock()
 				cur[gid] = r
 				reqs = append(reqs, r)
@@ -453,6 +455,28 @@ func c11ConcPredicate(c *c11ConcCase, w []*c11Member, reqs []*c11Req, shape *c11
 		for _, k := range shape.Kids {
 			if c11NeverFails(w[k.K]) {
 				healthy = true
+			}
+		}
+		// "ignore [a failure report] if i is not (no longer) the active store": once a request has been served by the
+		// never-failing member h as its FIRST choice, h is the active member and nothing can move the group off it:
+		// every request that starts later asks h and only h (C11_failover_active_settles, ..._stale_report_ignored)
+		if healthy {
+			h, settled := -1, -1
+			for _, k := range shape.Kids {
+				if c11NeverFails(w[k.K]) && h < 0 {
+					h = k.K
+				}
+			}
+			for _, r := range reqs {
+				if len(r.Calls) > 0 && r.Calls[0] == h && (settled < 0 || r.Start < settled) {
+					settled = r.Start
+				}
+			}
+			for _, r := range reqs {
+				if settled >= 0 && r.Start > settled && !(len(r.Calls) == 1 && r.Calls[0] == h) {
+					bad("failover/active-leaves-healthy-member", "the group had settled on member %d, which never fails (a request was served by it as its first choice in step %d); request %s of goroutine %d, started in step %d, called members %v: a stale failure report moved the active index", h, settled, r.Op, r.Thread, r.Start, r.Calls)
+					break
+				}
 			}
 		}
 		for _, r := range reqs {
@@ -601,6 +625,32 @@ func c11GenFailoverCase(rng *vh.Rand) *c11ConcCase {
 	return c
 }
 
+// c11GenFailoverLateCase: 3-5 members, all but the last one broken for good, several goroutines with several
+// requests each: schedules in which a request sits in an early member while the others move the group on, and
+// reports its failure late.
+func c11GenFailoverLateCase(rng *vh.Rand) *c11ConcCase {
+	n := rng.Range(3, 5)
+	c := &c11ConcCase{Conc: "failover", SchedSeed: rng.U64()}
+	var kids []string
+	for k := 0; k < n; k++ {
+		spec := "0:0:1,1:1:1/_/e"
+		if k == n-1 {
+			spec = fmt.Sprintf("0:%d:1,1:%d:1/_/n", k*10, k*10+1)
+		}
+		c.Members = append(c.Members, spec)
+		kids = append(kids, fmt.Sprintf("L%d", k))
+	}
+	c.Shape = "F0[" + strings.Join(kids, ",") + "]"
+	for t := rng.Range(3, 5); t > 0; t-- {
+		var ops []string
+		for k := rng.Range(2, 4); k > 0; k-- {
+			ops = append(ops, fmt.Sprintf("%c%d", "ggh"[rng.Intn(3)], rng.Intn(2)))
+		}
+		c.Threads = append(c.Threads, ops)
+	}
+	return c
+}
+
 func c11GenSwapCase(rng *vh.Rand) *c11ConcCase {
 	c := &c11ConcCase{Conc: "swap", SchedSeed: rng.U64()}
 	ngen := rng.Range(2, 4)
@@ -704,7 +754,11 @@ func c11Concurrent(a vh.Args, o *vh.Oracle, r *vh.Result, rng *vh.Rand) error {
 		var c *c11ConcCase
 		switch k % 3 {
 		case 0:
-			c = c11GenFailoverCase(rng)
+			if k%2 == 0 {
+				c = c11GenFailoverLateCase(rng)
+			} else {
+				c = c11GenFailoverCase(rng)
+			}
 		case 1:
 			c = c11GenSwapCase(rng)
 		default:
@@ -742,6 +796,17 @@ func c11ReplayConc(a vh.Args, o *vh.Oracle, r *vh.Result) error {
 	var c c11ConcCase
 	if err := readJSON(a.Replay, &c); err != nil {
 		return err
+	}
+	if c.Conc == "failover-late-reports" {
+		// truly parallel trials: the replay repeats them (many more than a quick run) with the recorded seed
+		var p struct {
+			Trials int    `json:"trials"`
+			Seed   uint64 `json:"late_seed"`
+		}
+		readJSON(a.Replay, &p)
+		c11FailoverLateReports(r, vh.NewRand(p.Seed+13), p.Trials, map[string]interface{}{"conc": "failover-late-reports", "trials": p.Trials, "late_seed": p.Seed})
+		fmt.Printf("%d parallel late-report trials: %d failures\n", p.Trials, r.NFailures())
+		return nil
 	}
 	_, err := c11CheckConc(r, &c, true)
 	fmt.Printf("schedule: %s\n", c.Trace)
